@@ -62,7 +62,10 @@ def r_cast(ctx: Ctx, rt):
     I.ext["ast.literal_eval"] = lambda I, a, k, n: I.from_py(_a.literal_eval(a[0])) if isinstance(a[0], str) else a[0]
     cases = {"12": ("int", "12"), "9007199254740993": ("int", "9007199254740993"), "0": ("int", "0"), "1.5": ("float", "1.5"),
              "1e-07": ("float", "1e-07"), "-2.5": ("float", "-2.5"), "True": True, "False": False, "None": None, "": None,
-             "hello world": "hello world", "N2": "N2", "1.2.3": "1.2.3"}
+             "hello world": "hello world", "N2": "N2", "1.2.3": "1.2.3",
+             # plain text that merely resembles a special spelling (substring / prefix / other case pattern of none, true, false, nan)
+             "no": "no", "on": "on", "one": "one", "NE": "NE", "N": "N", "non": "non", "tru": "tru", "rue": "rue", "Fals": "Fals", "als": "als",
+             "e": "e", "none of these": "none of these", "true north": "true north", "x": "x", "+": "+", "-": "-", ".": ".", "1e": "1e", "e5": "e5"}
     for text, want in cases.items():
         outs = I.explore(lambda I: I.call_func(fi, [text], {}, None))
         got = None
